@@ -166,6 +166,11 @@ def run(ctx):
                   loc=m.loc(c.module, c.node))
 
     # ------------------------------------------------------------------ R5
+    crosscheck(ctx, "C11.R5", "ZConfig.loader.SchemaLoader."
+               "schemaComponentSource", RS, "schemaComponentSource",
+               "ZConfig.loader.SchemaLoader",
+               "the registry key of a component is canonical: the default "
+               "file name is part of it, however the import was spelled")
     crosscheck(ctx, "C11.R5", BP + ".start_import", RS, "start_import", BP,
                "package import: hasComponent gate, addComponent, then parse")
     crosscheck(ctx, "C11.R5", "ZConfig.loader.ConfigLoader"
